@@ -29,7 +29,10 @@ Relations (oracles)
   T  totals           nll_attach == sum_i nll_attach_ind, nll_regul_<v> == sum_i nll_regul_<v>_ind,
                       nll_regul_ind_sum_ind == sum_v nll_regul_<v>_ind, nll_regul_ind_sum == sum_i (float64 reference).
   N  n_jobs           same keys, same order, parameters within 5e-2 prior standard deviations and objective within
-                      the optimiser's ftol scale of the sequential result (DESIGN 2.3).
+                      the optimiser's ftol scale of the sequential result (DESIGN 2.3); the START POINT of every individual's
+                      optimisation (recorded inside the joblib workers by lmc/site_hooks/sitecustomize.py) is bit-identical to
+                      the sequential one; one optimisation per individual; a second identical public call (worker pool already
+                      used) returns bit-identical results from bit-identical start points.
 """
 
 from __future__ import annotations
@@ -89,7 +92,13 @@ NAN = float("nan")
 IDS = ["a", "b", "c", "d", "e"]
 IDNUM = {i: k for k, i in enumerate(IDS)}
 MODS = ("inv", "miss", "far")
-MOD_LABEL = {"inv": "other values", "miss": "other missing pattern", "far": "other ages, extreme values, other latent values"}
+# "none": the other member keeps its visits but none of its values is observed (the library itself builds such
+# single-individual datasets with drop_full_nan=False); used where an unobserved individual takes another code path
+# (the scipy_minimize start points, the terms)
+MODS_WITH_NONE = MODS + ("none",)
+PARTS_WITH_NONE = ("terms", "scipy")
+MOD_LABEL = {"inv": "other values", "miss": "other missing pattern", "far": "other ages, extreme values, other latent values",
+             "none": "no observed value at all"}
 
 # latent values attached to the individual, in prior standard deviations from the prior mode
 LATENT_Z = {
@@ -129,11 +138,14 @@ THOROUGH_NJOBS_MODELS = ["logistic_d2_s1_diag", "joint_d1_s0_scalar", "linear_d2
 def bounds(tier):
     if tier == "quick":
         return {"terms": "all 85 ordered cohorts of size <= 3 of 5 individuals x 3 modifications of the complement of every focal member, all 12 model kinds",
-                "sampler": "ordered cohorts <= 3 of 4 individuals, same modifications, %d model kinds, 2 scripts of draws" % len(QUICK_SAMPLER_MODELS),
+                "sampler": "ordered cohorts <= 3 of 4 individuals, same modifications, %d model kinds, 2 scripts of draws; 3 kinds again with the "
+                           "aggressive tuning (scale adapted after every sweep, x1.9 / x0.1)" % len(QUICK_SAMPLER_MODELS),
                 "mcmc": "mode/mean posterior, ordered cohorts <= 3 of 4, %d model kinds, 1 script" % len(QUICK_MCMC_MODELS),
-                "scipy": "ordered cohorts <= 2 of 4 individuals, %d model kinds, start points by individual + plain seeded call (non-joint)" % len(QUICK_SCIPY_MODELS),
+                "scipy": "ordered cohorts <= 2 of 4 individuals, %d model kinds, start points by individual + plain seeded call (non-joint); "
+                         "4 modifications of the other member (incl. no observed value at all)" % len(QUICK_SCIPY_MODELS),
                 "n_jobs": "{1, 2} on ordered cohorts <= 2 of 3 individuals + every order of the triples (a,b,c), (c,d,e) (every ranking pattern of the "
-                          "numbers of visits) + one scrambled cohort of 5, %d model kinds" % len(QUICK_NJOBS_MODELS)}
+                          "numbers of visits) + one scrambled cohort of 5, %d model kinds; every public call made twice; start point and result of "
+                          "every optimisation recorded inside the worker processes" % len(QUICK_NJOBS_MODELS)}
     return {"terms/sampler": "all 85 ordered cohorts of size <= 3 of 5 individuals, every non-empty proper subset x 3 modifications, all 12 model "
                              "kinds, sampler scripts {0, 1, 2, seed}",
             "mcmc": "mode/mean posterior, same cohorts and modifications, all 12 model kinds with script 0, %d of them also with script (seed or 2)"
@@ -141,7 +153,8 @@ def bounds(tier):
             "scipy": "ordered cohorts <= 3 of 5 individuals (cohorts of 3: complements of every focal member), %d model kinds, start points by individual; "
                      "plain seeded call on cohorts of 2 (non-joint) and, for the first kind, of 3" % len(THOROUGH_SCIPY_MODELS),
             "n_jobs": "{1, 2, 3} on ordered cohorts <= 2 of 4 individuals + every order of (a,b,c), (c,d,e) + 2 more triples + 2 cohorts of 5, "
-                      "%d model kinds" % len(THOROUGH_NJOBS_MODELS)}
+                      "%d model kinds; every public call made twice; start points recorded inside the workers" % len(THOROUGH_NJOBS_MODELS),
+            "tunings": "sampler part: default and aggressive tuning for every model kind and script; terms / scipy: 4 modification kinds"}
 
 
 # ------------------------------------------------------------------------------------------
@@ -165,6 +178,8 @@ def individual_rows(i, dim, binary, mod):
             hi, lo = (1.0, 0.0) if binary else (0.999, 0.001)
             vv = [v if v != v else (hi if (j + k) % 2 == 0 else lo) for j, v in enumerate(vv)]
             age = age + 3.25
+        elif mod == "none":
+            vv = [NAN for _ in vv]
         elif mod is not None:
             raise ValueError(mod)
         rows.append((i, age, vv))
@@ -191,11 +206,13 @@ def cohort_frame(spec, ids, mods):
 
 def cohort_dataset(spec, ids, mods):
     df = cohort_frame(spec, ids, mods)
+    # a member without any observed value keeps its (empty) visits, as in the library's own single-individual datasets
+    kw = {"drop_full_nan": False} if "none" in mods.values() else {}
     if spec["kind"] == "joint":
         # number of events given (as scipy_minimize does for its single-individual datasets): a cohort whose members
         # are all censored is refused otherwise
-        return Dataset(Data.from_dataframe(df, "joint", factory_kws={"nb_events": 1}))
-    return Dataset(Data.from_dataframe(df))
+        return Dataset(Data.from_dataframe(df, "joint", factory_kws={"nb_events": 1}, **kw))
+    return Dataset(Data.from_dataframe(df, **kw))
 
 
 def ordered_cohorts(pool, kmax):
@@ -205,13 +222,13 @@ def ordered_cohorts(pool, kmax):
     return out
 
 
-def modification_maps(ids):
+def modification_maps(ids, kinds=MODS):
     """{} first, then every non-empty proper subset of the members x every modification kind."""
     out = [{}]
     n = len(ids)
     for k in range(1, n):
         for sub in itertools.combinations(ids, k):
-            for m in MODS:
+            for m in kinds:
                 out.append({i: m for i in sub})
     return out
 
@@ -358,14 +375,21 @@ def exec_terms(model, spec, ids, mods, **_):
     return out
 
 
-def exec_sampler(model, spec, ids, mods, script=0, **_):
+# tunings of the directly driven individual samplers: "default" = 3 adaptations of the scale by +-10 % in 6 sweeps;
+# "aggressive" (valid options) = adapted after every sweep, x1.9 / x0.1: within 2 sweeps the scales of two individuals are
+# more than two orders of magnitude apart, so any coupling of an individual's proposal scale to the cohort's shows
+TUNINGS = {"default": dict(acceptation_history_length=ACC_WINDOW),
+           "aggressive": dict(acceptation_history_length=1, adaptive_std_factor=0.9)}
+
+
+def exec_sampler(model, spec, ids, mods, script=0, tuning="default", **_):
     ds, st = prepared_state(model, spec, ids, mods)
     n = len(ids)
     st.auto_fork_type = StateForkType.REF  # as the algorithms do around their sampling loops
     out = {"ids": list(ids), "shape": tuple(ds.values.shape), "n_obs": n_observations(spec, ds), "per_id": {i: {} for i in ids}, "totals": {},
            "decisions": {i: "" for i in ids}, "u": {i: [] for i in ids}}
     ivs = ind_var_names(st)
-    samplers = {v: make_sampler("gibbs", st, v, n, acceptation_history_length=ACC_WINDOW) for v in ivs}
+    samplers = {v: make_sampler("gibbs", st, v, n, **TUNINGS[tuning]) for v in ivs}
     env = IdEnv(ids, script)
     spied = {}
 
@@ -698,13 +722,38 @@ def njobs_subprocess(model_name, cohorts, n_jobs_list):
     req = json.dumps({"model": model_name, "cohorts": cohorts, "n_jobs": n_jobs_list})
     env = dict(os.environ, PYTHONHASHSEED="0", OMP_NUM_THREADS="1", MKL_NUM_THREADS="1")
     verif = os.path.dirname(os.path.dirname(os.path.dirname(os.path.abspath(__file__))))
-    env["PYTHONPATH"] = os.pathsep.join([p for p in (env.get("PYTHONPATH"), verif) if p])
-    r = subprocess.run([sys.executable, "-W", "ignore", "-m", "lmc.c07_njobs"], input=req, capture_output=True, text=True, env=env, cwd=verif,
-                       timeout=3000)
+    # lmc/site_hooks/sitecustomize.py records every scipy.optimize.minimize call (start point, result) of that interpreter
+    # AND of the joblib workers it starts (they inherit the environment): harness-side seam, nothing is altered
+    hooks = os.path.join(verif, "lmc", "site_hooks")
+    env["PYTHONPATH"] = os.pathsep.join([p for p in (env.get("PYTHONPATH"), verif, hooks) if p])
+    import tempfile
+    fd, rec = tempfile.mkstemp(prefix="lmc_c07_rec_", suffix=".jsonl", dir="/var/tmp")
+    os.close(fd)
+    env["LMC_SCIPY_RECORD"] = rec
+    try:
+        r = subprocess.run([sys.executable, "-W", "ignore", "-m", "lmc.c07_njobs"], input=req, capture_output=True, text=True, env=env, cwd=verif,
+                           timeout=3000)
+    finally:
+        with contextlib.suppress(OSError):
+            os.remove(rec)
     lines = [l for l in r.stdout.splitlines() if l.startswith("C07NJOBS ")]
     if r.returncode != 0 or not lines:
         raise RuntimeError(f"harness: n_jobs interpreter failed (rc={r.returncode}): {r.stderr[-1500:]}")
-    return json.loads(lines[-1][len("C07NJOBS "):])
+    out = json.loads(lines[-1][len("C07NJOBS "):])
+    if not out.get("recording"):
+        raise RuntimeError("harness: the scipy.optimize.minimize recording seam was not active in the n_jobs interpreter")
+    return out
+
+
+def _starts_by_id(rec, ids):
+    """{individual: record} from the recorded minimize calls of one public call; None when they cannot be attributed."""
+    starts = rec.get("starts") or []
+    if len(starts) != len(ids):
+        return None
+    if all(s.get("patient_id") is not None for s in starts):
+        d = {s["patient_id"]: s for s in starts}
+        return d if sorted(d) == sorted(ids) else None
+    return None
 
 
 def objective(model, spec, i, params):
@@ -748,8 +797,46 @@ def check_njobs(acc, model_name, cohorts, n_jobs_list):
                 acc.violation("personalize(scipy_minimize)|result keys are not the dataset's individuals in the dataset's order|"
                               f"n_jobs={'1' if nj == 1 else '>1'}", f"{got['order']} for cohort {ids} (n_jobs={nj})", case)
                 continue
+            # every optimisation was recorded (in this interpreter or in a worker): one per individual
+            n_rec = len(got.get("starts") or [])
+            if n_rec != len(ids):
+                acc.violation("personalize(scipy_minimize)|number of optimisations run differs from the number of individuals|"
+                              f"n_jobs={'1' if nj == 1 else '>1'}", f"{n_rec} recorded minimize calls for cohort {ids} (n_jobs={nj})", case)
+            if nj > 1 and res["effective"][str(nj)] > 1 and len(ids) > 1:
+                main_pid_calls = len({s["pid"] for s in (got.get("starts") or [])})
+                acc.count("njobs: public calls whose optimisations ran in >= 2 distinct worker processes" if main_pid_calls >= 2
+                          else "njobs: public calls served by one process")
+            # a second identical call (same seed, same n_jobs, worker pool already used) gives the same answer
+            again = got.get("again")
+            if isinstance(again, dict):
+                if "exc" in again:
+                    acc.violation(f"personalize(scipy_minimize)|{again['exc'][0]}|second call, n_jobs={'1' if nj == 1 else '>1'}", again["exc"][1], case)
+                elif again.get("order") != got["order"] or again.get("params") != got["params"]:
+                    acc.violation("personalize(scipy_minimize)|a repeated seeded call gives another result|"
+                                  f"n_jobs={'1' if nj == 1 else '>1'}", f"cohort {ids} (n_jobs={nj}): first {got['params']} then {again.get('params')}", case)
+                else:
+                    s1, s2 = _starts_by_id(got, ids), _starts_by_id(again, ids)
+                    if s1 is not None and s2 is not None and any(s1[i]["x0"] != s2[i]["x0"] for i in ids):
+                        acc.violation("personalize(scipy_minimize)|a repeated seeded call starts its optimisations elsewhere|"
+                                      f"n_jobs={'1' if nj == 1 else '>1'}", f"cohort {ids} (n_jobs={nj})", case)
             if nj == 1 or "exc" in base[c]:
                 continue
+            # start points: the optimisation of every individual starts from the same point whatever the number of workers
+            sb, sg = _starts_by_id(base[c], ids), _starts_by_id(got, ids)
+            if sb is not None and sg is not None:
+                bad = [i for i in ids if sb[i]["x0"] != sg[i]["x0"]]
+                if bad:
+                    i = bad[0]
+                    acc.violation("personalize(scipy_minimize)|start point of an individual's optimisation depends on n_jobs|",
+                                  f"individual '{i}' of {ids}: x0 {sb[i]['x0']} with n_jobs=1, {sg[i]['x0']} with n_jobs={nj}", case)
+                acc.count("njobs: start points compared per individual")
+            else:
+                m1 = sorted(tuple(x["x0"]) for x in (base[c].get("starts") or []))
+                m2 = sorted(tuple(x["x0"]) for x in (got.get("starts") or []))
+                if m1 != m2:
+                    acc.violation("personalize(scipy_minimize)|start points of the optimisations depend on n_jobs|",
+                                  f"cohort {ids}: {m1} with n_jobs=1, {m2} with n_jobs={nj}", case)
+                acc.count("njobs: start points compared as a multiset")
             identical = True
             for i in ids:
                 p1, p2 = base[c]["params"][i], got["params"][i]
@@ -798,6 +885,10 @@ def shards(tier, seed):
         for s in scripts:
             out.append({"part": "sampler", "model": m, "pool": IDS if thorough else IDS[:4], "kmax": 3, "script": s, "subsets": "every" if thorough else "all-others",
                         "tier": tier})
+    for m in (ALL_MODELS if thorough else QUICK_SAMPLER_MODELS[:3]):
+        for s in (scripts if thorough else scripts[:1]):
+            out.append({"part": "sampler", "model": m, "pool": IDS if thorough else IDS[:4], "kmax": 3, "script": s, "tuning": "aggressive",
+                        "subsets": "every" if thorough else "all-others", "tier": tier})
     for m in (ALL_MODELS if thorough else QUICK_MCMC_MODELS):
         for algo in ("mode_posterior", "mean_posterior"):
             for s in ((scripts[:1] + scripts[-1:] if m in QUICK_MCMC_MODELS else scripts[:1]) if thorough else scripts[-1:]):
@@ -832,14 +923,14 @@ def shards(tier, seed):
 
 def case_of(shard, ids, mods):
     c = {"part": shard["part"], "model": shard["model"], "ids": list(ids), "mods": dict(mods)}
-    for k in ("script", "algo", "draws"):
+    for k in ("script", "algo", "draws", "tuning"):
         if k in shard:
             c[k] = shard[k]
     return c
 
 
 def runner_of(case):
-    kw = {k: case[k] for k in ("script", "algo", "draws") if k in case}
+    kw = {k: case[k] for k in ("script", "algo", "draws", "tuning") if k in case}
     return Runner(case["part"], case["model"], **kw)
 
 
@@ -847,7 +938,8 @@ def record(acc, runner, case, probs, info):
     acc.evaluation()
     ids, mods = case["ids"], case["mods"]
     if len(ids) > 1:
-        acc.nontriv(repr((case["part"], case.get("algo"), case["model"], tuple(ids), tuple(sorted(mods.items())), case.get("script"), case.get("draws"))))
+        acc.nontriv(repr((case["part"], case.get("algo"), case["model"], tuple(ids), tuple(sorted(mods.items())), case.get("script"), case.get("draws"),
+                          case.get("tuning"))))
     out = info["out"]
     part = case["part"]
     if out is not None and "exc" in out:
@@ -876,10 +968,11 @@ def run_shard(shard):
         cohorts = [[i] for i in members] + [list(p) for p in itertools.permutations(members)]
     else:
         cohorts = ordered_cohorts(shard["pool"], shard["kmax"])
+    kinds = MODS_WITH_NONE if part in PARTS_WITH_NONE else MODS
     for ids in cohorts:
-        maps = modification_maps(ids)
+        maps = modification_maps(ids, kinds)
         if len(ids) == 3 and shard["subsets"] == "all-others":
-            maps = [{}] + [{j: m for j in ids if j != i} for i in ids for m in MODS]
+            maps = [{}] + [{j: m for j in ids if j != i} for i in ids for m in kinds]
         for mods in maps:
             case = case_of(shard, ids, mods)
             probs, info = check_case(runner, ids, mods)
